@@ -236,7 +236,3 @@ Print Assumptions eval_forward_spec.
 Theorem eval_forward_unconnected : forall f w, eval (KForward f w) [None] = [all_X w].
 Proof. exact NodeSemSpec.eval_forward_unconnected. Qed.
 Print Assumptions eval_forward_unconnected.
-
-Theorem bogus : 1 = 2.
-Proof. reflexivity. Qed.
-Print Assumptions bogus.
